@@ -11,6 +11,7 @@ COMMON_ASSUMPTIONS = [
     "exploration only: held on every generated case, no claim about inputs that were not generated",
 ]
 
+import json
 import os as _os
 # wall-clock seconds of each native fuzz campaign in the thorough tier (coverage-guided; cannot be pinned by VERIF_SEED)
 FUZZ_SECONDS = int(_os.environ.get("VERIF_FUZZ_SECONDS", "120"))
@@ -26,6 +27,7 @@ PLAN["C04"] = {
         {"name": "TestDirectCalls", "quick": (1600000, 8), "thorough": (48000000, 16)},
         {"name": "TestExprEval", "quick": (400000, 4), "thorough": (12000000, 16)},
         {"name": "TestTemplates", "quick": (400000, 4), "thorough": (12000000, 16)},
+        {"name": "TestEngineTemplates", "quick": (16000, 8), "thorough": (800000, 16)},
         {"name": "FuzzTemplate", "fuzz": True, "thorough": (FUZZ_SECONDS, 16)},
     ],
     "budget": {"quick": 600, "thorough": 5400},
@@ -216,6 +218,7 @@ PLAN["C01"] = {
     "tests": [
         {"name": "TestSessionInvariants", "quick": (24000, 8), "thorough": (1600000, 16)},
         {"name": "TestSubflowHierarchies", "quick": (16000, 8), "thorough": (1200000, 16)},
+        {"name": "TestNearValidDefinitions", "quick": (8000, 8), "thorough": (600000, 16)},
     ],
     "budget": {"quick": 600, "thorough": 5400},
     "rule": SCENARIO_RULE + "Oracle after every engine call that returned without Go error: the C01 validity predicate (session status, "
@@ -267,7 +270,7 @@ PLAN["C10"] = {
             "Oracle: a Resume that returns an error returns an *engine.Error with one of the three codes, leaves the session JSON "
             "byte-identical and produces no events/segments/modifiers; otherwise no Go error or panic, a session that turns failed has a "
             "failure event, and the C01 invariants hold. Non-trivial = a rejection happened or a fault made resumption impossible; "
-            "distinct by (session status, resume type, fault kind, error code, number of runs).",
+            "distinct by (assets, trigger, sprint index, session status, resume type, fault kind, error code); the coarse classes (status/resume type/fault/code) are reported as class:* labels.",
     "assumptions": COMMON_ASSUMPTIONS + ["asset faults are applied to the JSON asset document and the session is re-read against it, as a host would after an asset change"],
 }
 MANIFEST_TEXT["C10"] = {
@@ -446,7 +449,7 @@ PLAN["C19"] = {
             "quick replies, result values, names, field values) is identical; nameless contacts format as their id. Control: under policy "
             "none the same walk must differ for twins with different URNs (proves the walk reaches URNs). Second test: every condition on "
             "urn, a scheme or urns.<scheme> with a non-empty value is rejected by ParseQuery under the policy and accepted without it. "
-            "Non-trivial = the twins differ and the control walk shows a difference; distinct by (assets, trigger, steps, templates).",
+            "Non-trivial = the twins differ and the control walk shows a difference (policy-switch histories: the twins' refreshed contacts differ and a sprint after the switch ran); distinct by (assets, trigger, steps, templates).",
     "assumptions": COMMON_ASSUMPTIONS + ["flows contain no add_contact_urn with a literal path (whether a literal URN is new depends on the contact's URNs by design, not through expressions)"],
 }
 MANIFEST_TEXT["C19"] = {
@@ -518,6 +521,59 @@ def c08_post(pid, jobs, out_dir, save_violation):
                 violations.append(("scenario %s of the seeded list (sha256 %s) produced different output bytes in two fresh processes" % (a[0], a[1][:12]), dst))
                 break
     notes.append("cross-process: %d processes, %d scenario digests compared" % (len(files), compared))
+
+    # process-history independence: every scenario of the recorded list is executed again (nearly) first in a process of its
+    # own, without any generation going on in that process; its digest must equal the one from the long-lived process
+    import subprocess
+    from concurrent.futures import ThreadPoolExecutor
+    j0 = [j for j in jobs if j.test == "TestDigests" and j.idx == 0 and j.rc == 0]
+    cases = os.path.join(j0[0].dir, "digests.txt.cases") if j0 else None
+    if cases and os.path.exists(cases):
+        n = len(ref)
+        span = 1 if n <= 1000 else 4
+        ranges = [(a, min(a + span, n + 1)) for a in range(1, n + 1, span)]
+        alone_dir = os.path.join(out_dir, pid, "alone")
+        os.makedirs(alone_dir, exist_ok=True)
+        env = dict(os.environ)
+        env.update({"GOFLAGS": "-mod=mod", "GOPROXY": "off", "GOSUMDB": "off", "GOTOOLCHAIN": "local", "VERIF_DIGEST_CASES": cases,
+                    "VERIF_KNOWN": os.path.join(os.path.dirname(os.path.abspath(__file__)), "known_findings.json"),
+                    "VERIF_ROOT": os.path.dirname(os.path.abspath(__file__))})
+        pkgdir = os.path.join(os.path.dirname(os.path.abspath(__file__)), "harness", "c08")
+
+        def run_range(r):
+            e = dict(env)
+            outp = os.path.join(alone_dir, "d-%d.txt" % r[0])
+            e.update({"VERIF_DIGEST_OUT": outp, "VERIF_DIGEST_FROM": str(r[0]), "VERIF_DIGEST_TO": str(r[1])})
+            try:
+                subprocess.run([j0[0].binp, "-test.run", "^TestDigestAlone$", "-test.count", "1"], env=e, cwd=pkgdir,
+                               stdout=subprocess.DEVNULL, stderr=subprocess.DEVNULL, timeout=600)
+            except subprocess.TimeoutExpired:
+                return []
+            try:
+                return [l.split() for l in open(outp).read().splitlines() if l.strip()]
+            except OSError:
+                return []
+        with ThreadPoolExecutor(max_workers=os.cpu_count() or 4) as ex:
+            results = list(ex.map(run_range, ranges))
+        by_pos = {a[0]: a for a in ref}
+        alone_compared = 0
+        for lines in results:
+            for l in lines:
+                a = by_pos.get(l[0])
+                if a is None or a[1] != l[1]:
+                    continue
+                alone_compared += 1
+                if l[2] != a[2] and not violations:
+                    case_obj = None
+                    try:
+                        case_obj = json.loads(open(cases).read().splitlines()[int(l[0]) - 1])
+                    except Exception:
+                        pass
+                    dst = save_violation(pid, None, {"test": "TestDeterminism", "message": "output depends on process history: scenario %s gives different bytes when executed first in a fresh process than inside the process that generated the list" % l[0], "case": case_obj})
+                    violations.append(("scenario %s of the seeded list produced different output bytes when executed first in a fresh process (digest %s) than in the middle of a long-lived process (digest %s): output depends on incidental process state" % (l[0], l[2][:12], a[2][:12]), dst))
+        if alone_compared < n // 2:
+            inconclusive.append("only %d of %d scenarios could be re-executed alone" % (alone_compared, n))
+        notes.append("process history: %d scenarios re-executed in %d fresh processes (reverse order within a process), digests compared with the generating process" % (alone_compared, len(ranges)))
     return violations, inconclusive, notes
 
 
@@ -525,7 +581,7 @@ PLAN["C08"] = {
     "pkg": "c08",
     "tests": [
         {"name": "TestDeterminism", "quick": (1600, 12), "thorough": (96000, 16)},
-        {"name": "TestDigests", "same_seed": True, "quick": (150, 4), "thorough": (4000, 8)},
+        {"name": "TestDigests", "same_seed": True, "quick": (600, 4), "thorough": (6000, 8)},
         {"name": "TestLegacyMigrationDeterminism", "quick": (4000, 4), "thorough": (400000, 8)},
     ],
     "post": c08_post,
